@@ -16,6 +16,8 @@ CHECKS = {
          "exhaustive enumeration of all line orders / file compositions / fill splittings of bounded ledgers on the real code; equality with the canonical order"),
  "C07": ("every calendar date 1899-12-31..2101-04-07 against an independent 6-April rule; `years` graph x every year filter (slice equality, holdings); cgt-tool report --year and MCP explain_matching for every 5/6 April 1900..2101",
          "exhaustive date sweep + bounded exhaustive exploration of ledger x year-filter pairs on the real code"),
+ "C08": ("every (bundled month, ISO currency) cell against an independent reader of the XML; `fxpairs` ledger graphs vs pre-converted GBP twins; all subsets x both mtime orders of an 8-file rates-folder menu vs reference overlay; --fx-folder and MCP get_fx_rate",
+         "exhaustive enumeration of the rate table, of bounded multi-currency ledgers and of rate-folder configurations on the real code"),
  "C09": ("two-security ledger graph: combined run vs each security alone (disposals, leg lists, holdings, acceptance, totals adding up), reversed interleaving; all case spellings of a ticker in DSL and JSON input",
          "bounded exhaustive exploration of the two-security ledger graph on the real code; projection equality"),
  "C10": ("every ledger with SPLIT/UNSPLIT vs its exactly-representable rescaled twin; SPLIT r;UNSPLIT r inserted on every adjacent free date pair of every ledger",
